@@ -113,4 +113,25 @@ theorem reachable_fine (g : GenCfg) (s : State) (h : Reachable g s) : FineReach 
   | init => exact .init
   | step s s' _ hs ih => exact fineReach_path g s s' (chainStep_fine s s' hs) ih
 
+/-- a path of elementary steps whose source states all satisfy `Q` -/
+inductive FinePathQ (Q : State → Prop) : State → State → Prop where
+  | refl (s : State) : FinePathQ Q s s
+  | cons (a b c : State) (hq : Q a) (h : FineStep a b) (t : FinePathQ Q b c) : FinePathQ Q a c
+
+theorem FineReach.extend {g : GenCfg} {Q : State → Prop} {a b : State} (ha : FineReach g Q a)
+    (hp : FinePathQ Q a b) : FineReach g Q b := by
+  induction hp with
+  | refl => exact ha
+  | cons a b c hq h _ ih => exact ih (.step a b ha hq h)
+
+/-- a relation that is reflexive, transitive and holds for every elementary step between
+reachable states holds along every path from a reachable state -/
+theorem path_rel {g : GenCfg} {Q : State → Prop} (R : State → State → Prop)
+    (hrefl : ∀ s, R s s) (htrans : ∀ a b c, R a b → R b c → R a c)
+    (hstep : ∀ a b, FineReach g Q a → Q a → FineStep a b → R a b)
+    {a b : State} (ha : FineReach g Q a) (hp : FinePathQ Q a b) : R a b := by
+  induction hp with
+  | refl s => exact hrefl s
+  | cons a b c hq h _ ih => exact htrans _ _ _ (hstep a b ha hq h) (ih (.step a b ha hq h))
+
 end Mainchain
